@@ -213,6 +213,27 @@ static bool tree_is_sane(char* why, size_t why_size) {
     }
   }
   if (reached != H.blocks.size()) { snprintf(why, why_size, "tree holds %" PRIu64 " blocks, lists hold %" PRIu64, uint64_t(reached), uint64_t(H.blocks.size())); return false; }
+  // the search-tree order the lookup relies on (JitTree.v `ordered`): in-order, the mappings are increasing and disjoint
+  {
+    std::vector<const JitAllocatorBlock*> order;
+    std::vector<std::pair<const JitAllocatorBlock*, int>> st2;   // explicit in-order walk (all links are known blocks now)
+    const JitAllocatorBlock* cur = root;
+    while (cur || !st2.empty()) {
+      while (cur) { st2.push_back({cur, 0}); cur = static_cast<const JitAllocatorBlock*>(cur->_get_child(0)); }
+      cur = st2.back().first; st2.pop_back();
+      order.push_back(cur);
+      cur = static_cast<const JitAllocatorBlock*>(cur->_get_child(1));
+      if (order.size() > H.blocks.size()) break;
+    }
+    for (size_t i = 0; i + 1 < order.size(); i++) {
+      uintptr_t a = uintptr_t(order[i]->rx_ptr()), b = uintptr_t(order[i + 1]->rx_ptr());
+      if (a + order[i]->block_size() > b) {
+        snprintf(why, why_size, "tree is not ordered: blk=%" PRId64 " precedes blk=%" PRId64 " in-order but its mapping does not end before it",
+                 block_by_ptr(order[i])->info.serial, block_by_ptr(order[i + 1])->info.serial);
+        return false;
+      }
+    }
+  }
   return true;
 }
 
@@ -600,6 +621,10 @@ int main() {
       // ---- D --------------------------------------------------------------------------------------------------------
       case 'D': {
         if (!at_end(p)) { puts("BAD"); break; }
+        {
+          char why[200];
+          if (!tree_is_sane(why, sizeof(why))) M.report("tree-corrupt", why, true);
+        }
         printf("D %" PRIu64, uint64_t(H.blocks.size()));
         for (const BlockEnt& e : H.blocks) {
           digest(e.ptr, dg, sizeof(dg), ':');
